@@ -34,7 +34,7 @@ ASSUMPTIONS = [
     "container objects (object streams, xref streams) are defined objects and expected in get_objids()",
     "damage = startxref / xref keyword / subsection header / entry format / entry offset; trailer damage is outside 'cross-reference table'",
 ]
-PROBES = ["form:table", "form:stream", "form:hybrid", "packed objects", "override of packed by direct", "override of direct by packed", "multi-range Index", "nested getobj for indirect Length", "eviction happened", "caching off", "startxref boundary placed", "crlf eol", "zero-width type field", "hybrid with free entries"]
+PROBES = ["form:table", "form:stream", "form:hybrid", "packed objects", "override of packed by direct", "override of direct by packed", "multi-range Index", "nested getobj for indirect Length", "eviction happened", "caching off", "startxref boundary placed", "crlf eol", "repository sample", "zero-width type field", "hybrid with free entries"]
 TIERS = {
     "quick": {"batches": 16, "runs": 1200, "budget_s": 45},
     "thorough": {"batches": 128, "runs": 2500, "budget_s": 900},
@@ -526,9 +526,89 @@ def run_damage(t, ctx, devs):
     return cfg, bad
 
 
+SAMPLE_FILES = ["simple1.pdf", "simple2.pdf", "simple3.pdf", "jo.pdf", "contrib/issue-886-xref-stream-widths.pdf", "contrib/issue-1057-tiff-predictor.pdf", "contrib/matplotlib.pdf", "contrib/issue-00369-excel.pdf", "encryption/base.pdf", "contrib/pdf-with-jbig2.pdf", "sampleOneByteIdentityEncode.pdf"]
+
+
+def run_sample(t, ctx, devs):
+    """Files written by real-world producers: every object must read the same under every schedule."""
+    import os
+
+    from sim.oracle import canon
+
+    rel = t.pick(SAMPLE_FILES, "sample")
+    try:
+        with open(os.path.join(core.REPO, "samples", rel), "rb") as fh:
+            data = fh.read()
+    except OSError:
+        return "sample missing", b""
+    ctx.probe("repository sample")
+
+    def read_all(pol, caching, ev, order_seed):
+        seams.CHUNK.policy = pol
+        seams.EVICT.set(ev)
+        try:
+            doc = PDFDocument(PDFParser(BytesIO(data)), caching=caching)
+            ids = sorted({i for x in doc.xrefs for i in x.get_objids()})
+            out = {}
+            order = list(ids)
+            if order_seed is not None:
+                order = order_seed(order)
+            for i in order:
+                try:
+                    o = doc.getobj(i)
+                    if isinstance(o, PDFStream):
+                        # (rawdata is dropped once a stream has been decoded: compare dictionary and decoded data)
+                        try:
+                            c = ("S", canon(o.attrs), o.get_data())
+                        except Exception as e:
+                            c = ("S", canon(o.attrs), "raise:" + type(e).__name__)
+                    else:
+                        c = canon(o)
+                    out[i] = c
+                except Exception as e:
+                    out[i] = "raise:%s" % type(e).__name__
+            return out, repr(doc.catalog)[:200]
+        finally:
+            seams.CHUNK.policy = None
+            seams.EVICT.set(None)
+
+    try:
+        ref = read_all(None, True, None, None)
+    except Exception as e:
+        devs.append(Dev("C02:sample:open:raise:%s" % type(e).__name__, "%s: %r" % (rel, e)))
+        return "sample %s" % rel, data
+    cfgs = []
+    for _ in range(2):
+        pol, pdesc = seams.draw_chunk_policy(t, None, allow_default=False)
+        caching = not t.coin(40, 100, "caching")
+        ev = seams.draw_evict(t)
+        cfg = "sample %s chunk=%s caching=%s evict=%s" % (rel, pdesc, caching, bool(ev))
+        cfgs.append(cfg)
+        ctx.seam("chunk")
+        try:
+            got = read_all(pol, caching, ev, lambda ids: t.shuffle(ids, "sample.order"))
+        except Exception as e:
+            devs.append(Dev("C02:sample:raise:%s@%s" % (type(e).__name__, where(e)), "%r; %s" % (e, cfg)))
+            continue
+        if got[1] != ref[1]:
+            devs.append(Dev("C02:sample:catalog-differs", "%s vs %s; %s" % (got[1], ref[1], cfg)))
+        bad = [i for i in ref[0] if got[0].get(i) != ref[0][i]]
+        if bad or set(got[0]) != set(ref[0]):
+            i = bad[0] if bad else sorted(set(got[0]) ^ set(ref[0]))[0]
+            devs.append(Dev("C02:sample:schedule-dependent", "object %d reads %r, default schedule gives %r; %s" % (i, str(got[0].get(i))[:200], str(ref[0].get(i))[:200], cfg)))
+    return "; ".join(cfgs), data
+
+
 def run(tape, ctx, item=None):
     t = tape
     devs = []
+    if t.coin(8, 100, "mode.sample"):
+        cfg, data = run_sample(t, ctx, devs)
+        seen = {}
+        for d in devs:
+            seen.setdefault(d.sig, d)
+        tape.note(cfg)
+        return Outcome(list(seen.values()), scen=repr((len(data), cfg)), nontrivial=True, sample={"mode": "sample", "config": cfg})
     if t.coin(15, 100, "mode.damage"):
         cfg, bad = run_damage(t, ctx, devs)
         seen = {}
